@@ -101,9 +101,33 @@ def run(src, q):
     x_rows0 = dyn.tensor_rows(x.tensor)
     cur_rows0 = dyn.tensor_rows(cur0.tensor)
     last_rows0 = dyn.tensor_rows(last0.tensor)
+    from .. import hidden
+    skip = {('env', 'np_random'), ('env', '_np_random'), ('env', '_np_random_seed')}
+    _ = (w.scenario.exploit_map, w.scenario.privesc_map)
+    hobjs = dict(env=env, net=env.network, scenario=w.scenario, action=A.obj)
+    before = hidden.snapshot(hobjs, skip)
+    r.again = None
     with scripted:
         with stubs.sut():
             ns, obs, reward, done, info = env.generative_step(x, A.obj)
+        r.hidden_changed = hidden.diff(before, hidden.snapshot(hobjs, skip))
+        if r.hidden_changed:
+            # the generative step left something behind: look ahead on another branch (fresh
+            # arbitrary Inv-state, own draw), then ask the same question again with the same draw
+            yst = env.current_state.copy()
+            ypre = scen.symbolic_state(w, yst, tag="y")
+            if src.symbolic:
+                sx.assume(scen.inv(w, scen.zstatus(ypre)))
+                sx.check_feasible()
+                n0 = len(sx.cur().draws)
+                sx.cur().notes['draw_ptr'] = n0
+            with stubs.sut():
+                env.generative_step(yst, A.obj)
+            stubs.rewind_draws(scripted)
+            with stubs.sut():
+                ns_b, obs_b, reward_b, done_b, info_b = env.generative_step(x, A.obj)
+            r.again = dict(ns_rows=dyn.tensor_rows(ns_b.tensor), obs_rows=dyn.tensor_rows(obs_b.tensor),
+                           reward=spec.real(sx.znum(reward_b)), done=sx.zbool(done_b), info=info_terms(info_b))
         r.g = dict(ns_rows=dyn.tensor_rows(ns.tensor), obs_rows=dyn.tensor_rows(obs.tensor),
                    reward=spec.real(sx.znum(reward)), done=sx.zbool(done), info=info_terms(info))
         r.pure = dict(
@@ -121,6 +145,18 @@ def run(src, q):
         r.ndraws = len(sx.cur().draws) if src.symbolic else scripted.calls
         r.s = None
         if not q.get('other_state'):
+            # an unrelated look-ahead on another branch in between (a concrete state in which the
+            # attacker holds ROOT everywhere): the agreement of step() with the generative step
+            # must not depend on which other states were inspected meanwhile
+            z = env.current_state.copy()
+            idx = scen.status_idx()
+            for a in w.addrs:
+                row = z.tensor[w.scenario.host_num_map[a]]
+                row[idx['comp']], row[idx['reach']], row[idx['disc']], row[idx['acc']] = 1, 1, 1, 2
+            if src.symbolic:
+                sx.cur().notes['draw_ptr'] = len(sx.cur().draws) + 5      # its own draws
+            with stubs.sut():
+                env.generative_step(z, A.obj)
             stubs.rewind_draws(scripted)
             with stubs.sut():
                 o2, reward2, done2, lim2, info2 = env.step(A.obj)
@@ -142,6 +178,13 @@ def obligations(r):
     obl.append(('environment_objects_not_replaced', z3.BoolVal(bool(p['same_objects']))))
     obl.append(('step_counter_not_modified', p['steps'][0] == p['steps'][1]))
     obl.append(('next_state_shares_no_storage', z3.BoolVal(not p['shares'] and not p['ns_is_x'])))
+    if r.again is not None:
+        g, a2 = r.g, r.again
+        same_info = set(g['info']) == set(a2['info'])
+        obl.append(('generative_step_repeatable_after_other_generative_steps', z3.And(
+            common.rows_equal(g['ns_rows'], a2['ns_rows']), common.rows_equal(g['obs_rows'], a2['obs_rows']),
+            g['reward'] == a2['reward'], g['done'] == a2['done'],
+            z3.And([g['info'][k] == a2['info'][k] for k in g['info']]) if same_info else z3.BoolVal(False))))
     if r.s is not None:
         g, s = r.g, r.s
         obl.append(('step_next_state_equals_generative', common.rows_equal(g['ns_rows'], s['ns_rows'])))
